@@ -1,5 +1,73 @@
-(* C19 — I/O buffers behave as exact FIFO byte queues. (statements; proofs in Proofs/BufferProofs.v) *)
-From RcProxy Require Import Base.Bytes Model.Buffers.
-Theorem C19_placeholder : forall l p, concat (ll_push_back l p) = concat l ++ p.
-Proof. intros l p. destruct p; cbn [ll_push_back]; [rewrite app_nil_r; reflexivity|]. rewrite concat_app. cbn. rewrite app_nil_r. reflexivity. Qed.
-Print Assumptions C19_placeholder.
+(* C19 — I/O buffers behave as exact FIFO byte queues.
+   Only theorem statements; proofs in Proofs/RingProofs.v, Proofs/BufferProofs.v, Proofs/BufferSeqProofs.v. *)
+From RcProxy Require Import Base.Bytes Model.Buffers Spec.FifoSpec Proofs.RingProofs Proofs.BufferProofs Proofs.BufferSeqProofs.
+From Coq Require Import Arith.
+Local Open Scope nat_scope.
+
+(* For EVERY sequence of operations (Write, Writev, Peek(n) incl. n <= 0, Discard, Read, Reset; any
+   sizes, any initial capacity, any capacity of a recycled ring, wrap-around, growth below and
+   above the 4 KiB threshold), as long as fewer than 2^31 bytes are written in total:
+   every result equals the ideal queue's, Buffered() is the exact length, IsEmpty() is exact. *)
+Theorem C19_ring_is_a_fifo : forall size ops, small_size (written ops) ->
+  conforms ring_step ring_buffered rg_empty (ring_new size) [] ops.
+Proof. intros size ops H. apply ring_conforms; [apply view_new | exact H]. Qed.
+Print Assumptions C19_ring_is_a_fifo.
+
+(* the pooled ring of a connection's inbound side (taken on first use, returned when drained) *)
+Theorem C19_elastic_ring_is_a_fifo : forall ops, small_size (written ops) ->
+  conforms er_step er_buffered er_is_empty None [] ops.
+Proof. intros ops H. apply er_conforms; [reflexivity | exact H]. Qed.
+Print Assumptions C19_elastic_ring_is_a_fifo.
+
+(* the outbound ring-then-list buffer, for every static threshold: Peek hands out whole chunks -
+   the oldest bytes, at least as many as asked for, all of them for n <= 0 (what eventloop.write
+   asks) - everything else is exact; bytes spilled to the list never overtake bytes in the ring *)
+Theorem C19_elastic_buffer_is_a_fifo : forall maxb ops, small_size (written ops) ->
+  eb_conforms (eb_new maxb) [] ops.
+Proof. intros maxb ops H. apply eb_conforms_all; [apply eb_new_view | exact H]. Qed.
+Print Assumptions C19_elastic_buffer_is_a_fifo.
+
+(* the single steps, in terms of the abstraction "contents, oldest first" *)
+Theorem C19_ring_write : forall rb c p, rview rb c -> small_size (length c + length p) -> rview (ring_write rb p) (c ++ p).
+Proof. exact ring_write_spec. Qed.
+Print Assumptions C19_ring_write.
+
+Theorem C19_ring_peek : forall rb c pos n h t, rview rb c -> ring_peek rb pos n = (h, t) ->
+  h ++ t = if pos then firstn n c else c.
+Proof. exact ring_peek_spec. Qed.
+Print Assumptions C19_ring_peek.
+
+Theorem C19_ring_discard : forall rb c n d rb', rview rb c -> ring_discard rb n = (d, rb') ->
+  d = Nat.min n (length c) /\ rview rb' (skipn n c).
+Proof. exact ring_discard_spec. Qed.
+Print Assumptions C19_ring_discard.
+
+(* growth never loses or reorders bytes and always makes room (capacity computation included) *)
+Theorem C19_grow_capacity : forall size newcap, small_size newcap -> newcap <= grow_cap size newcap.
+Proof. exact grow_cap_ge. Qed.
+Print Assumptions C19_grow_capacity.
+
+(* WriteByte (repaired defect: it ran past the slice on a full ring of 4 KiB or more) *)
+Theorem C19_write_byte : forall rb c x, rview rb c -> small_size (length c + 1) ->
+  exists rb', ring_write_byte rb x = Some rb' /\ rview rb' (c ++ [x]).
+Proof. exact ring_write_byte_spec. Qed.
+Print Assumptions C19_write_byte.
+
+Theorem C19_read_byte : forall rb c, rview rb c ->
+  match c with
+  | [] => ring_read_byte rb = (None, rb)
+  | x :: c' => exists rb', ring_read_byte rb = (Some x, rb') /\ rview rb' c'
+  end.
+Proof. exact ring_read_byte_spec. Qed.
+Print Assumptions C19_read_byte.
+
+(* non-vacuity: a ring of 8 bytes that wraps, fills exactly, grows, and is drained in pieces *)
+Example C19_witness :
+  let ops := [OWrite [1;2;3;4;5;6]%N 0; ODiscard 4; OWrite [7;8;9;10;11;12]%N 0;     (* wraps, exactly full *)
+              OPeek true 3; OWrite [13]%N 0;                                           (* grows *)
+              ORead 5; OPeek false 0] in
+  small_size (written ops) /\
+  map snd (fst (fold_left (fun acc op => let '(out, rb) := acc in let '(rb', r) := ring_step rb op in (out ++ [(rb', r)], rb'))
+                          ops ([], ring_new 8)))
+  = [RCount 6; RCount 4; RCount 6; RBytes [5;6;7]%N; RCount 1; RBytes [5;6;7;8;9]%N; RBytes [10;11;12;13]%N].
+Proof. cbv zeta. split; [vm_compute; reflexivity | vm_compute; reflexivity]. Qed.
